@@ -141,7 +141,7 @@ CLAIMED["C20"] = (
     "(select_document_order_partial, chained_document_order_partial); the roots loop = first-occurrence de-duplication of the furthest ancestors; find / [] reduce to select; compiled = interp on non-raising expressions (more strongly whenever the compiled body returns, incl. caseless predicates on non-strings — the repaired defect); "
     "a raise makes the compiled form False and a raising predicate does not match. the roots clause at full strength after repair 9796838 (roots_are_nodes). FALSE of the current code, each with a _partial theorem, a full-statement def and a negation witness replayed on the implementation (known findings): document order for nested deep matches, chained deep search on nested results returns duplicates. "
     "Tied: 13.5k cases per quick run over 5 streams.",
-    "Trusted: Lean kernel + propext/Classical.choice/Quot.sound; harness/c20.py (generators, adapter observing via len + indexing, token serialisation); opaque callables as a parameter; values restricted to None/int/str; str.lower as an ASCII + Latin-1 table checked per run; where/choose/nth/upto, Result.roots/parents, isin, matches, bool/float values and int/slice indexing are outside the model.",
+    "Trusted: Lean kernel + propext/Classical.choice/Quot.sound; harness/c20.py (generators, adapter observing via len + indexing, token serialisation); opaque callables as a parameter; values restricted to None/int/str; str.lower is not modelled: it is a parameter (Env.lower) of every theorem and each driver request carries the interpreter's s.lower() for its strings; where/choose/nth/upto, Result.roots/parents, isin, matches, bool/float values and int/slice indexing are outside the model.",
     "DESIGN.md §6 C20")
 
 CLAIMED["C06"] = (
@@ -185,6 +185,39 @@ CLAIMED["C08"] = (
     "Trusted: Lean kernel + propext/Classical.choice/Quot.sound; Python re on the cleaner patterns (hand-written recognisers validated per run against the LIVE pattern strings); \\w / \\s tables below U+0250 (checked exhaustively per run); substitute generation as tables read from mapping() (C09); the IPv6 recogniser as a parameter; the provenance reading of 'remains/appears' "
     "('coincides with an issued substitute' = contains an inserted character); 'accepted notations' = the PwSep families; harness/c08.py.",
     "DESIGN.md §6 C08")
+
+# what the seeding rounds added to the tie (appended to the level text; the builders' own wording)
+ADDENDA = {
+    "C01": "Also tied: the evaluation of a loaded archive itself (SerializedArchiveContext in the broker) and insights._run on generated serialized archives written by the real "
+           "Hydration.dehydrate, with values in the caller's broker, in the archive or both — held to the attempt oracle (at most once, never before a declared dependency attempted "
+           "in the same evaluation, given values neither recomputed nor replaced).",
+    "C02": "Also tied: 'default off, named components on' configurations (apply_default_enabled(False) followed by set_enabled(c, True)).",
+    "C03": "Also tied: one exception OBJECT met by several parsers of one input (a provider's cached failure): a record is demanded for every raiser.",
+    "C06": "Also tied: the providers built when a serialized archive is loaded again (initialize_broker / Hydration.hydrate -> the six deserializers -> SerializedOutputProvider / "
+           "SerializedRawOutputProvider), on generated archives whose data files are symlinks to outside, lie behind symlinked directories, or are recorded with '..' segments; "
+           "loaded or dropped per spec is compared with the model's mkFile over the data root, with the oracle on the kernel-resolved context root.",
+    "C11": "Also tied: raw results of MAX_CONTENT_SIZE -1/+0/+1/+4096 bytes (real constant, sparse files) persisted and loaded through the public entry points, loaded content compared "
+           "byte for byte with the source (oracle-only stream, covered in the model by roundtrip_raw).",
+    "C13": "Also tied: attributes outside name/epoch/version/release (arch, yum repository) vary independently on the compared objects; operators are checked between every listed "
+           "build and newest()/oldest() of the real rpm -qa / yum list parsers.",
+    "C14": "Also tied: a history stream (about 2100 get_after calls per quick run in sequences of 2-5 over ambiguous format pairs, shared stamp texts, subclass / per-instance / "
+           "re-assigned class formats, str/list/dict forms, instance reuse), each call compared with the pure model and the oracle for that call alone "
+           "(get_after_depends_only_on_own_lines).",
+    "C15": "Also tied: INI values and continuation lines with backslashes at the start, middle and end (value lines made only of backslashes and blanks are outside the rendered "
+           "class: predicate ini_ambiguous); 900 keyword_search histories per run on plain lists (parent=None) with coinciding first-row keys, short rows from parse_delimited_table "
+           "and lists that grow between searches, each call checked against the reference filter alone.",
+    "C18": "Also tied: the command-line entry point __main__ run in-process on multi-entry documents (entries without hosts, unsigned, edited, revoked, non-mapping), compared with the "
+           "model's verify() entry by entry; histories of loads with %YAML directives compared with a fresh process per load.",
+    "C19": "Also tied: terms are trees of occurrences and a combinator denotes the operand collection it was constructed from — generated grammars build Sequence, Choice and the "
+           "set_children combinators from generators, iterators, tuples, shared lists and lists mutated afterwards, and every grammar is evaluated repeatedly.",
+    "C20": "Case-insensitive predicates are proved to agree interpreted/compiled for every lower-casing function (str.lower is a parameter, Env.lower, of every theorem; each driver "
+           "request carries the interpreter's s.lower() for its strings) and tied to the implementation's lower()-on-both-sides contract on case-variant families "
+           "(sharp s, long s, final sigma, dotted/dotless i, ligatures, Kelvin, Angstrom) in the boolean, select and history streams.",
+}
+for _k, _extra in ADDENDA.items():
+    _t = CLAIMED[_k]
+    CLAIMED[_k] = (_t[0], _t[1] + " " + _extra) + tuple(_t[2:])
+
 
 PENDING_REASON = "check not built yet in this round (planned: DESIGN.md §6); no claim is made until its model, theorems and correspondence run exist"
 
